@@ -258,6 +258,9 @@ pub struct Registry;
 
 impl Prop for Registry {
     type Case = History;
+    fn shrink_iters(&self) -> u32 {
+        300
+    }
     fn name(&self) -> &'static str {
         "registry-history"
     }
